@@ -58,6 +58,7 @@ InJson == [argv |-> in.argv, aopt |-> SetToSeq(in.aopt), csel |-> [j \in 1..Card
            csec |-> SetToSeq(in.csec), env |-> in.env, esel |-> [j \in 1..Cardinality(Inner) |-> <<SetToSeq(Inner)[j], in.esel[SetToSeq(Inner)[j]]>>],
            eopt |-> SetToSeq(in.eopt), strict |-> in.strict, dcf |-> in.dcf, icfg |-> SetToSeq(in.icfg)]
 ResJson(r) == [err |-> r.err, levels |-> [j \in 1..Len(r.levels) |-> [x |-> r.levels[j].x, chosen |-> r.levels[j].chosen, sections |-> SetToSeq(r.levels[j].sections)]]]
-EmitCase == (Emit /\ Done) => PrintT(ToJson([tree |-> Tree, input |-> InJson, ref |-> ResJson(Select(T, in)), alg |-> ResJson(AlgSelect(T, in)), dev |-> CfgKeyNamesOther(in), dcfdev |-> DcfSubSettings(in)]))
+EmitCase == (Emit /\ Done) => PrintT(ToJson([tree |-> Tree, input |-> InJson, ref |-> ResJson(Select(T, in)), alg |-> ResJson(AlgSelect(T, in)), dev |-> CfgKeyNamesOther(in), dcfdev |-> DcfSubSettings(in),
+                                                     algcfg |-> ResJson(AlgSelect(T, [in EXCEPT !.dcf = FALSE]))]))
 ASSUME Emit => PrintT(ToJson([treedef |-> Tree, nodes |-> TJson]))
 =============================================================================
